@@ -211,7 +211,7 @@ func TestC41(t *testing.T) {
 	e := vh.Load(t)
 	st := vh.NewStats("FileManager.Put/Get on a temporary tree: roots spelled absolutely/relatively, with trailing slash, '.', '..' and doubled " +
 		"slashes, the empty root, '.', '/' ; FullPaths inside the root, in siblings sharing the root's name as a string prefix (root-evil, rootx), " +
-		"behind '..' components, behind directory and file symlinks, absolute elsewhere, relative vs absolute mismatches, missing files; " +
+		"behind '..' components, file and directory names containing backslashes ('..\\x', '\\..\\x', 'sub\\b': single components on POSIX, with victims of the slash-spelled name outside), behind directory and file symlinks, absolute elsewhere, relative vs absolute mismatches, missing files; " +
 		"URL-shaped references (http://../.., https://..//x, http:///.., '..' path segments, near-misses: one slash, upper-case scheme) and genuine URLs of a local HTTP server; " +
 		"AllowFiles/AllowUrls chosen independently at Put time and at read time (same datastore); Get and Verify observed; " +
 		"non-trivial = FullPath has the root string as a string prefix and contains a '..' component or a sibling-prefix name or a symlink, " +
@@ -228,6 +228,18 @@ func TestC41(t *testing.T) {
 	write(t, T+"/root/sub/deep/c", "inside-deep-c")
 	write(t, T+"/root/..hidden", "inside-dotdot-hidden") // a real name that merely starts with ".."
 	write(t, T+"/root/.../d", "inside-three-dots")
+	// on POSIX a backslash is an ordinary file-name character: these are single components (or plain directories)
+	// INSIDE the root; a victim with the slash-spelled name exists outside (or elsewhere), some with identical bytes
+	write(t, T+"/outside.txt", "same-bytes-outside.txt")
+	write(t, T+"/root/..\\outside.txt", "same-bytes-outside.txt")
+	write(t, T+"/root/..\\x", "inside-bs-x")
+	write(t, T+"/root/..\\root-evil\\secret", "OUTSIDE-secret") // same bytes as <T>/root-evil/secret
+	write(t, T+"/root/sub\\b", "inside-bs-sub-b")
+	write(t, T+"/root/\\..\\x", "OUTSIDE-x") // same bytes as <T>/x
+	write(t, T+"/root/a\\..\\..\\outside.txt", "same-bytes-outside.txt")
+	write(t, T+"/root/sub/..\\..\\outside.txt", "same-bytes-outside.txt")
+	write(t, T+"/root/d\\e/f", "inside-bs-dir-f")
+	write(t, T+"/root/sub/deep/\\", "inside-lone-backslash")
 	write(t, T+"/root-evil/secret", "OUTSIDE-secret")
 	write(t, T+"/rootx", "OUTSIDE-rootx")
 	write(t, T+"/x", "OUTSIDE-x")
@@ -327,6 +339,18 @@ func TestC41(t *testing.T) {
 	emit(R, R+"/sub/../../root-evil/secret", "corpus")
 	emit(R, R+"/sub/../a", "corpus")
 	emit(R, R+"/..hidden", "corpus")
+	emit(R, R+"/..\\outside.txt", "corpus") // the reference must keep denoting this file, not <T>/outside.txt
+	emit(R, R+"/..\\x", "corpus")
+	emit(R, R+"/..\\root-evil\\secret", "corpus")
+	emit(R, R+"/sub\\b", "corpus")
+	emit(R, R+"/\\..\\x", "corpus")
+	emit(R, R+"/a\\..\\..\\outside.txt", "corpus")
+	emit(R, R+"/sub/..\\..\\outside.txt", "corpus")
+	emit(R, R+"/d\\e/f", "corpus")
+	emit(R, R+"/sub/deep/\\", "corpus")
+	emit(R, R+"\\..\\outside.txt", "corpus") // string prefix of the root, then a backslash: the sibling "root\..\outside.txt"
+	emit("root", "root/..\\outside.txt", "corpus")
+	emit(R+"/sub", R+"/sub/..\\..\\outside.txt", "corpus")
 	emit(R, R+"/.../d", "corpus")
 	emit("root", "root/..hidden", "corpus")
 	emit(R, R, "corpus")
@@ -368,9 +392,10 @@ func TestC41(t *testing.T) {
 	// spellings of <T>/root to start a FullPath with (besides the root string itself)
 	rootSpell := []string{R, R + "/", R + "/.", T + "//root", R + "/sub/..", "root", "./root", "../" + base + "/root", R + "/sub/deep/../.."}
 	// interesting targets relative to <T>/root
-	known := []string{"a", "sub/b", "sub/deep/c", "link/x", "flink", "../root-evil/secret", "../x", "../rootx", "../other/x",
+	known := []string{"..\\outside.txt", "..\\x", "..\\root-evil\\secret", "sub\\b", "\\..\\x", "a\\..\\..\\outside.txt", "sub/..\\..\\outside.txt",
+		"d\\e/f", "sub/deep/\\", "..\\missing", "sub\\..\\a", "../outside.txt", "a", "sub/b", "sub/deep/c", "link/x", "flink", "../root-evil/secret", "../x", "../rootx", "../other/x",
 		"sub/../../x", "sub/deep/../../../root-evil/secret", "sub", "", "..", "missing", "a/b", "..hidden", ".../d", "sub/../..hidden", "../root/..hidden", "sub/deep/../b", "../root/a", "../root/../x"}
-	segs := []string{"a", "sub", "deep", "b", "c", "x", "..", "..", ".", "", "link", "flink", "missing", "root", "root-evil", "secret", "rootx", "other"}
+	segs := []string{"..\\outside.txt", "..\\x", "\\", "..\\", "d\\e", "sub\\b", "outside.txt", "a", "sub", "deep", "b", "c", "x", "..", "..", ".", "", "link", "flink", "missing", "root", "root-evil", "secret", "rootx", "other"}
 	tails := []string{"-evil/secret", "x", "/", "/.", "/..", "-evil/../root/a"}
 	noise := []string{".", "", "sub/..", "missing/..", "sub/deep/../..", "."}
 	n := e.Pick(1500, 12000)
